@@ -79,12 +79,31 @@ rule "Q" salience 3 no-loop { when T1.v < 5 then log("q"); }"#,
             action_free: true,
             types: vec!["T0", "T1"],
         },
+        // the facts of this rule set hold v as a float (FLOAT_SETS_FROM): integer literal against float fact
+        RuleSet {
+            name: "gte_lte_on_float_facts",
+            grl: r#"rule "R" no-loop { when T0.v >= 5 then log("r"); }
+rule "S" no-loop { when T0.v <= 5 then log("s"); }"#,
+            rules: vec![r("R", "T0", ">=", 5), r("S", "T0", "<=", 5)],
+            action_free: true,
+            types: vec!["T0"],
+        },
     ]
+}
+
+const FLOAT_SETS_FROM: usize = 6;
+
+fn num(v: &FactValue) -> Option<i64> {
+    match v {
+        FactValue::Float(f) if f.fract() == 0.0 => Some(*f as i64),
+        other => other.as_integer(),
+    }
 }
 
 fn holds(op: &str, v: i64, rhs: i64) -> bool {
     match op {
         ">=" => v >= rhs,
+        "<=" => v <= rhs,
         "==" => v == rhs,
         "<" => v < rhs,
         _ => false,
@@ -112,6 +131,8 @@ struct MFact {
     ty: &'static str,
     v: i64,
     live: bool,
+    /// sequence number of the last insert / update of this fact
+    event: u64,
 }
 
 pub struct Sys {
@@ -128,6 +149,9 @@ pub struct Sys {
     fired_since_reset: BTreeSet<String>,
     reset_seen: bool,
     update_seen: bool,
+    float_facts: bool,
+    seq: u64,
+    last_fire_seq: u64,
 }
 
 impl Sys {
@@ -159,11 +183,15 @@ impl Sys {
             });
             eng.add_rule(rr, deps);
         }
-        Sys { rs, eng, rec, specs: set.rules, action_free: set.action_free, types: set.types, values: values.to_vec(), max_facts, handles: vec![], facts: vec![], fired_since_reset: BTreeSet::new(), reset_seen: false, update_seen: false }
+        Sys { rs, eng, rec, specs: set.rules, action_free: set.action_free, types: set.types, values: values.to_vec(), max_facts, handles: vec![], facts: vec![], fired_since_reset: BTreeSet::new(), reset_seen: false, update_seen: false, float_facts: rs >= FLOAT_SETS_FROM, seq: 0, last_fire_seq: 0 }
     }
-    fn data(v: i64) -> TypedFacts {
+    fn data(&self, v: i64) -> TypedFacts {
         let mut t = TypedFacts::new();
-        t.set("v", v);
+        if self.float_facts {
+            t.set("v", FactValue::Float(v as f64));
+        } else {
+            t.set("v", v);
+        }
         t
     }
     /// the three views of working memory agree for every handle ever issued
@@ -213,7 +241,7 @@ impl Sys {
                     ));
                 }
                 if let Some(f) = g {
-                    let v = f.data.get("v").and_then(|x| x.as_integer());
+                    let v = f.data.get("v").and_then(num);
                     if v != Some(self.facts[i].v) || f.fact_type != ty {
                         return Err(Mismatch::new("fact_contents_differ", format!("handle {}: stored {:?} (type {}), expected v={} (type {})", id, v, f.fact_type, self.facts[i].v, ty)));
                     }
@@ -230,7 +258,7 @@ impl Sys {
             match self.eng.working_memory().get(h) {
                 Some(f) => {
                     self.facts[i].live = true;
-                    if let Some(v) = f.data.get("v").and_then(|x| x.as_integer()) {
+                    if let Some(v) = f.data.get("v").and_then(num) {
                         self.facts[i].v = v;
                     }
                 }
@@ -275,20 +303,23 @@ impl System for Sys {
         match op {
             Op::Insert(t, a) => {
                 let ty = self.types[*t];
-                let h = self.eng.insert(ty.to_string(), Sys::data(*a));
+                let h = self.eng.insert(ty.to_string(), self.data(*a));
                 if self.handles.contains(&h) {
                     return Err(Mismatch::new("handle_reused", format!("insert returned handle {} a second time", h.id())));
                 }
                 self.handles.push(h);
-                self.facts.push(MFact { ty, v: *a, live: true });
+                self.seq += 1;
+                self.facts.push(MFact { ty, v: *a, live: true, event: self.seq });
                 self.check_views(true)?;
             }
             Op::Update(i, a) => {
-                let r = self.eng.update(self.handles[*i], Sys::data(*a));
+                let r = self.eng.update(self.handles[*i], self.data(*a));
                 if r.is_err() {
                     return Err(Mismatch::new("update_of_active_fact_failed", format!("update(#{}) = {:?}", i, r)));
                 }
                 self.facts[*i].v = *a;
+                self.seq += 1;
+                self.facts[*i].event = self.seq;
                 self.update_seen = true;
                 self.check_views(true)?;
             }
@@ -322,7 +353,7 @@ impl System for Sys {
                             return Err(Mismatch::tagged("fired_for_retracted_fact", format!("rule {} fired for handle {} which is not in working memory at that moment", f.rule, hid), &tags));
                         }
                         Some(v) => {
-                            let iv = v.as_integer().unwrap_or(i64::MIN);
+                            let iv = num(v).unwrap_or(i64::MIN);
                             if !holds(spec.op, iv, spec.rhs) {
                                 return Err(Mismatch::tagged(
                                     "fired_for_fact_that_does_not_satisfy_the_rule",
@@ -368,11 +399,36 @@ impl System for Sys {
                         ));
                     }
                     self.check_views(true)?;
+                } else if self.action_free {
+                    // histories with a reset: whether a rule fires again for a fact it has already fired for is not
+                    // fixed by the statement (the agenda is drained by fire_all). Two bounds are: no rule fires
+                    // unless it has not fired since the reset and some live fact satisfies it; and such a rule MUST fire
+                    // when a live satisfying fact was inserted or updated after the previous fire_all (its activation
+                    // is still pending whatever happened to the fired flags in between).
+                    let eligible = |s: &&RuleSpec| !self.fired_since_reset.contains(s.name) || ret.contains(&s.name.to_string());
+                    let may: BTreeSet<String> = self.specs.iter().filter(eligible).filter(|s| self.facts.iter().any(|f| f.live && f.ty == s.ty && holds(s.op, f.v, s.rhs))).map(|s| s.name.to_string()).collect();
+                    let must: BTreeSet<String> = self
+                        .specs
+                        .iter()
+                        .filter(eligible)
+                        .filter(|s| self.facts.iter().any(|f| f.live && f.ty == s.ty && holds(s.op, f.v, s.rhs) && f.event > self.last_fire_seq))
+                        .map(|s| s.name.to_string())
+                        .collect();
+                    let got: BTreeSet<String> = ret.iter().cloned().collect();
+                    if !got.is_subset(&may) {
+                        return Err(Mismatch::tagged("rule_fired_without_satisfying_fact", format!("fire_all() fired {:?}; only {:?} have not fired since the reset and are satisfied by a live fact", ret, may), &["history_with_reset"]));
+                    }
+                    if !must.is_subset(&got) {
+                        return Err(Mismatch::tagged("satisfied_rule_did_not_fire", format!("fire_all() fired {:?}; {:?} have not fired since the reset and are satisfied by a live fact inserted or updated after the previous fire_all", ret, must), &["history_with_reset"]));
+                    }
+                    self.check_views(true)?;
                 } else {
                     // actions may have modified or retracted facts: re-read working memory
                     self.check_views(false)?;
                     self.resync();
                 }
+                self.seq += 1;
+                self.last_fire_seq = self.seq;
                 obs = hstr(&format!("{:?}", ret));
             }
         }
